@@ -220,7 +220,7 @@ def showExec (e : ExecEv) : String :=
 def showOutcome (rep : Bool) (o : Outcome) : String :=
   match o with
   | .ok r => s!"ok {",".intercalate (r.outs.map toString)}"
-  | .unsat a g => s!"unsat {",".intercalate ((a.map showLabel).mergeSort (· ≤ ·))} graph={g && rep}"
+  | .unsat a g => s!"unsat {",".intercalate (((a.map showLabel).mergeSort (· ≤ ·)).eraseDups)} graph={g && rep}"
   | .convErr e => if e = 1 then "e0 typednil" else s!"e0 {e}"
   | .targetErr e _ => if e = 1 then "e0 typednil" else s!"e0 {e}"
   | .missingArg => "missingarg"
@@ -232,7 +232,11 @@ def showOutcome (rep : Bool) (o : Outcome) : String :=
 def showImplRes (ts : List String) : String :=
   match ts with
   | "ok" :: rest => s!"ok {rest.headD ""}"
-  | "err" :: "unsat" :: rest => s!"unsat {(kv rest "args").getD ""} graph={(kv rest "inputs").getD "" != "" || (kv rest "convs").getD "" != ""}"
+  | "err" :: "unsat" :: rest =>
+    -- the resolver-level error lists a requirement once per in-progress function its path runs through;
+    -- the model lists it once: compare as sets
+    let args := (((kv rest "args").getD "").splitOn ",").eraseDups
+    s!"unsat {",".intercalate args} graph={(kv rest "inputs").getD "" != "" || (kv rest "convs").getD "" != ""}"
   | "err" :: "e0" :: [x] => s!"e0 {x}"
   | "err" :: [x] => x
   | "panic" :: [k] => s!"panic {k}"
